@@ -587,7 +587,7 @@ GhostNextOf(i) ==
         stq |-> [c0 \in ids |->
                    IF e.ev = "stall" /\ e.a.kind = "off" /\ e.c = c0 THEN {}
                    ELSE IF SessionEndsIn(i, c0) \/ ~StalledClient(e, c0) THEN {}
-                   ELSE Get(g.stq, c0, {}) \cup
+                   ELSE {m \in Get(g.stq, c0, {}) : ~Hooked(e, "dropped", c0, m)} \cup      \* (a drop reported meanwhile settles it)
                         (IF IsPubStep(i) /\ Routed(i) /\ PubOf(i).m # "" /\ PubOf(i).qos = 0 /\ c0 \in PlainEntitled(i) /\ Online(Pre(i), c0)
                             /\ ~Hooked(e, "dropped", c0, PubOf(i).m) /\ WireCopies(e, c0, PubOf(i).m) = 0
                             /\ ~(c0 = PubOf(i).origin /\ \E s \in MatchingSubs(Subs(Pre(i)), PubOf(i).t) : s.c = c0 /\ s.nl)
